@@ -862,6 +862,7 @@ struct TupSys<IsPair, K, TL<Ts...>, TL<Us...>> {
 using TCM = mc::Tracked<mc::copy_move>;
 using TMO = mc::Tracked<mc::move_only>;
 using TCO = mc::Tracked<mc::copy_only>;
+using TR3 = mc::Tracked<mc::rule3>;
 
 } // namespace
 
@@ -880,6 +881,8 @@ int main(int argc, char** argv)
 #if !defined(MC_PART) || MC_PART == 2
     m.job("pair<Tracked,Tracked>/k3", both, [](mc::Reporter& r) { explore<TupSys<true, 3, TL<TCM, TCM>, TL<int, short>>>(r); });
     m.job("pair<TrackedCopyOnly,int>/k3", both, [](mc::Reporter& r) { explore<TupSys<true, 3, TL<TCO, int>, TL<int, short>>>(r); });
+    m.job("pair<TrackedRule3,int>/k3", both, [](mc::Reporter& r) { explore<TupSys<true, 3, TL<TR3, int>, TL<int, short>>>(r); });
+    m.job("tuple<int,TrackedRule3>/k3", both, [](mc::Reporter& r) { explore<TupSys<false, 3, TL<int, TR3>, TL<short, int>>>(r); });
     m.job("tuple<int>/k3", both, [](mc::Reporter& r) { explore<TupSys<false, 3, TL<int>, TL<long>>>(r); });
     m.job("tuple<Tracked>/k3", both, [](mc::Reporter& r) { explore<TupSys<false, 3, TL<TCM>, TL<int>>>(r); });
     m.job("pair<Tracked,Tracked>/k4", th, [](mc::Reporter& r) { explore<TupSys<true, 4, TL<TCM, TCM>, TL<int, short>>>(r); });
